@@ -1,8 +1,8 @@
 /-
-  Props/C15_v2b.lean — property C15, v2 async_mutex, part b: the inline scheduler
-  (Dekker window between push_back and the release of `locked_`, try_lock races, the uncontended
-  path of start() with a stop request).  ONLY property theorems; model: Proto/MutexV2.lean;
-  `safe` is spelled out in C15_v2a.v2_safe_spelled.
+  Props/C15_v2b.lean — property C15, v2 async_mutex, part b: the inline scheduler on a free mutex
+  (Dekker window between push_back and the release of `locked_`; async_lock vs try_lock).
+  ONLY property theorems; model: Proto/MutexV2.lean; `safe` is spelled out in
+  C15_v2a.v2_safe_spelled.
 -/
 import UnifexModel.Proto.MutexV2
 
@@ -11,14 +11,10 @@ open Unifex.Core Unifex.Proto.MutexV2
 
 /-- two async_lock racing on a free mutex: full property -/
 theorem v2_race_inline_safe : ∀ s, Reach (sys cfgRaceInline) s → (safe cfgRaceInline s && noHazard s) = true :=
-  safe_of_check _ { coded with M := 1021 } 400 _ (by decide +kernel)
+  safe_of_check _ { coded with M := 821, W := 272 } 400 _ (by decide +kernel)
 
 /-- async_lock racing with try_lock: full property -/
 theorem v2_race_try_safe : ∀ s, Reach (sys cfgRaceTry) s → (safe cfgRaceTry s && noHazard s) = true :=
-  safe_of_check _ { coded with M := 509 } 400 _ (by decide +kernel)
-
-/-- uncontended start() with a stop request at any time, inline scheduler -/
-theorem v2_inline_stop_safe_partial : ∀ s, Reach (sys cfgInlineStop) s → safe cfgInlineStop s = true :=
-  safe_of_check _ { coded with M := 251 } 400 _ (by decide +kernel)
+  safe_of_check _ { coded with M := 347, W := 200 } 400 _ (by decide +kernel)
 
 end Unifex.Props.C15
